@@ -346,6 +346,22 @@ def run(prog: Program, ctx: Ctx) -> None:  # noqa: PLR0912,PLR0915
         esc_a = {e: r for e, r in ef.escapes(ad_).items() if e in ("AliasResolutionError", "CyclicAliasError")}
         ctx.ob("R2", "alias-writer|follows-no-alias", not esc_a, "Alias.as_dict raises no alias error (may-raise summary over the call graph)" if not esc_a else
                f"Alias.as_dict can raise {sorted(esc_a)} ({next(iter(esc_a.values())).describe()}): one alias with a broken chain aborts the whole full dump", where(ad_))
+    # relative_filepath is relative to the working directory *now*: a process that dumps one project, changes directory and dumps another gets both right
+    cwd_now = [_PP("/work/one")]
+    itg.ext_handlers["pathlib.Path.cwd"] = lambda _i: cwd_now[0]
+    rfp = prog.lookup_method(mcls, "relative_filepath")[0]
+    seq = []
+    try:
+        for cwd_, file_ in ((_PP("/work/one"), _PP("/work/one/pkg/__init__.py")), (_PP("/work/two"), [_PP("/work/two/nsp")]), (_PP("/work/two"), _PP("/work/two/other/m.py"))):
+            cwd_now[0] = cwd_
+            mod_ = _Obj(mcls, {"name": "x", "_filepath": file_, "parent": None}, label="module")
+            seq.append(str(itg.getattr(mod_, "relative_filepath")))
+    except _Raised as r:
+        seq.append(f"raises {r.exc}")
+    itg.ext_handlers.pop("pathlib.Path.cwd", None)
+    ctx.ob("R2", "relative_filepath|follows the working directory", seq == ["pkg/__init__.py", "nsp", "other/m.py"],
+           f"a package dumped from /work/one, then (after a change of directory) a namespace package and a module from /work/two: relative_filepath = {seq}; "
+           "expected ['pkg/__init__.py', 'nsp', 'other/m.py']", where(rfp))
     for k, m in getters:
         esc = {e: r for e, r in ef.escapes(m).items() if r.fn == m.qualname}  # raised by the getter itself
         if esc and m.name in TABLED_GETTERS:
@@ -353,3 +369,9 @@ def run(prog: Program, ctx: Ctx) -> None:  # noqa: PLR0912,PLR0915
             continue
         ctx.ob("R2", f"getter|{k}", not esc, f"Object.{m.name} (written as `{k}` in full dumps) raises nothing itself" if not esc else
                f"Object.{m.name}, evaluated for every object in a full dump, raises {sorted(esc)} ({next(iter(esc.values())).describe()})", where(m))
+
+    # ------------------------------------------------------------------ R3 what runtime inspection puts in value / default slots is text
+    from sa.rules.C17 import inspected_values_table
+
+    inspected_values_table(prog, ctx, "R3")
+
